@@ -70,7 +70,7 @@ Inductive cell :=
 | CBool (b : bool)
 | CInt (z : Z)
 | CFloatIntegral (z : Z)          (* a float with value.is_integer() *)
-| CFloatOther (repr : str)        (* any other float: its str(), an oracle (shortest round-trip repr) *)
+| CFloatOther (repr : str)        (* any other float: its str() (shortest round-trip repr, an oracle), which float_to_str rewrites without exponent *)
 | CDate (text : str).             (* datetime/time: its str() *)
 
 Definition NBSP : char := 160%N.
@@ -79,6 +79,37 @@ Definition z_dec (z : Z) : str :=
   | Z0 => [48%N]
   | Zpos p => dec (Npos p)
   | Zneg p => 45%N :: dec (Npos p)
+  end.
+(* float_to_str: str(value) when it has no exponent, else format(Decimal(text), "f"): the decimal point moved by the exponent.
+   text = [-] I [. F] e (+|-) X   (repr of a float: I is one digit) *)
+Definition CH_E : char := 101%N.
+Definition CH_DOT : char := 46%N.
+Definition CH_MINUS : char := 45%N.
+Definition CH_PLUS : char := 43%N.
+Definition CH_0 : char := 48%N.
+Fixpoint nat_of_digits_acc (acc : nat) (d : str) : nat :=
+  match d with [] => acc | c :: r => nat_of_digits_acc (10 * acc + N.to_nat (c - 48)%N) r end.
+Definition nat_of_digits (d : str) : nat := nat_of_digits_acc 0 d.
+Definition shift_point (neg : bool) (ip fp : str) (eneg : bool) (n : nat) : str :=
+  let digits := ip ++ fp in
+  let body :=
+    if eneg then
+      if Nat.ltb n (length ip) then firstn (length ip - n) digits ++ CH_DOT :: skipn (length ip - n) digits
+      else CH_0 :: CH_DOT :: repeat CH_0 (n - length ip) ++ digits
+    else
+      if Nat.ltb n (length fp) then firstn (length ip + n) digits ++ CH_DOT :: skipn (length ip + n) digits
+      else digits ++ repeat CH_0 (n - length fp) in
+  if neg then CH_MINUS :: body else body.
+Definition float_text (r : str) : str :=
+  let (mant, ex) := span (fun c => negb (ceq c CH_E)) r in
+  match ex with
+  | [] => r
+  | _ :: ex' =>
+      let (neg, m) := match mant with c :: m' => if ceq c CH_MINUS then (true, m') else (false, mant) | [] => (false, mant) end in
+      let (ip, fp0) := span (fun c => negb (ceq c CH_DOT)) m in
+      let fp := match fp0 with _ :: f => f | [] => [] end in
+      let (eneg, ed) := match ex' with c :: d => if ceq c CH_MINUS then (true, d) else if ceq c CH_PLUS then (false, d) else (false, ex') | [] => (false, []) end in
+      shift_point neg ip fp eneg (nat_of_digits ed)
   end.
 Definition s_TRUE : str := [84;82;85;69]%N.
 Definition s_FALSE : str := [70;65;76;83;69]%N.
@@ -99,7 +130,7 @@ Definition xlsx_value_to_str (c : cell) : str :=
   | CFloatIntegral z => z_dec z
   | CInt z => z_dec z
   | CDate t => t
-  | CFloatOther r => replace_nbsp r
+  | CFloatOther r => replace_nbsp (float_text r)
   | CStr s => replace_nbsp s
   | CNone => [78;111;110;101]%N                 (* str(None); never reached: is_empty filters it *)
   end.
